@@ -330,6 +330,7 @@ class ImplWorld:
 
 
 _BR_ROT = [0]
+_BD_ROT = [0]
 
 
 def resolve_nid(op, impl):
@@ -584,6 +585,38 @@ def oracle_structure(impl, ti, bij, pool, driver):
                 res["index"].append(f"find_first(data_id) of {n!r} -> {ff!r}")
         except Exception as e:  # noqa
             res["index"].append(f"clone queries of {n!r} raised {e!r}")
+    # lookups by data OBJECT (`tree.find_all(obj)`, `tree.find_first(obj)`, `obj in tree`): exactly the nodes that carry the id
+    # of that object - the tree's id callback applied to it, else hash(obj) - whether or not some node has an explicit
+    # data_id that happens to EQUAL the object (a str/int id is not a data object).  Candidates: the data of the reachable
+    # nodes, the pool objects that equal a data_id in use, and a rotating few of the others (absent objects).
+    _BD_ROT[0] += 1
+    cands = []
+    for o in [n.data for n in reachable] + [o for o in pool.objs if isinstance(o, (str, int)) and any(type(d) is type(o) and d == o for d in dids)] \
+            + [pool.objs[(_BD_ROT[0] * 5 + j * 7) % len(pool.objs)] for j in range(2)]:
+        if not any(o is c for c in cands):
+            cands.append(o)
+    for o in cands[:12]:
+        try:
+            oid = tree.calc_data_id(o)
+            hash(oid)
+        except Exception:  # noqa  (unhashable object without a callback, raising callback entry: no id to look up)
+            continue
+        want = [n for n in reachable if n.data_id == oid]
+        try:
+            got = tree.find_all(o)
+            ff = tree.find_first(o)
+            inn = o in tree
+        except Exception as e:  # noqa
+            res["index"].append(f"lookups by the data object {o!r} raised {e!r}")
+            continue
+        if sorted(map(id, got)) != sorted(map(id, want)):
+            res["index"].append(f"find_all({o!r}) by data object = {got!r}, nodes that carry its data_id: {want!r}")
+        elif (ff is None) != (not want) or (ff is not None and not any(ff is n for n in want)):
+            res["index"].append(f"find_first({o!r}) by data object = {ff!r}, nodes that carry its data_id: {want!r}")
+        elif inn != bool(want):
+            res["index"].append(f"({o!r} in tree) = {inn}, nodes that carry its data_id: {want!r}")
+        if not got and isinstance(got, list):
+            got.append("extended by the caller")
     # branch-scoped lookups by id: exactly the nodes of that branch that carry the id, in pre-order
     def below(n):
         for c in n.children:
